@@ -506,6 +506,9 @@ def _guard_semantics(t):
             return None
         l, r = c.left, c.comparators[0]
         op = type(c.ops[0])
+        if isinstance(l, ast.Constant) and l.value == 0 and not (isinstance(r, ast.Constant)):
+            l, r = r, l
+            op = {ast.Lt: ast.Gt, ast.LtE: ast.GtE, ast.Gt: ast.Lt, ast.GtE: ast.LtE}.get(op, op)
         zero = isinstance(r, ast.Constant) and r.value == 0
         ls = norm_src(l)
         if zero and ls == "pvals":
